@@ -2,7 +2,7 @@
    They are facts about the REFERENCE SEMANTICS (C01/Ref.v).  No theorem here (or anywhere in
    /verif) relates [eval] to the compiler: that relation is the correspondence run of
    harness/h01 (generated programs through the real pipeline vs [eval], compared inside Coq). *)
-From C01 Require Import Ref RefProofs.
+From C01 Require Import Ref RefProofs Typing TypeSound.
 Open Scope Z_scope.
 
 (* checked addition panics iff the mathematical sum leaves the range of the type, with exactly
@@ -52,6 +52,41 @@ Theorem C01_ref_deterministic : forall p f args n m o1 o2,
   o1 <> OutOfFuel -> o2 <> OutOfFuel -> o1 = o2.
 Proof. exact eval_fn_deterministic. Qed.
 
+(* type soundness of the reference evaluator, for the WHOLE modelled language (every construct of
+   Ref.expr): a program accepted by the type checker Typing.wt_prog, called on arguments that have
+   the shape of the declared parameter types, is never stuck - it returns a value of the shape of
+   the declared return type, panics, or runs out of fuel.  ("Shape": an integer is a VInt, a tuple
+   has the declared arity, an enum value names an existing variant, ...; that integers stay in the
+   range of their type follows from the checked operators, see C01_panic_data_exact_*.)
+   The correspondence run checks [wt_prog p = true] for every generated program. *)
+Theorem C01_ref_type_sound : forall p f fd args n,
+  wt_prog p = true -> nth_error p f = Some fd ->
+  Forall2 (fun p0 v => vtb (pty p0) v = true) (fparams fd) args ->
+  eval_fn p f args n <> Stuck
+  /\ forall v, eval_fn p f args n = Value v -> vtb (fret fd) v = true.
+Proof. exact ref_type_sound. Qed.
+
+(* non-vacuity: a program with a ref parameter, a loop with break, a match and checked arithmetic
+   is accepted by the checker, and evaluates as the source says (3 + 4 iterations ...). *)
+Example C01_example_typed :
+  let u8 := TInt U8 in
+  let bump := {| fparams := [ {| pname := 0; pty := u8; pref := true |} ]; fret := TOption u8;
+                 fbody := ESeq (EAssign 0 (EBin Add u8 (EVar 0) (ELit u8 100)))
+                               (EEnum (TOption u8) 0 (EVar 0)) |} in
+  let main := {| fparams := [ {| pname := 0; pty := u8; pref := false |} ]; fret := u8;
+                 fbody := ELet 1 (ELit (TInt U32) 0)
+                   (ELet 2 (ELoop u8 (ESeq (EIf (EBin Ge (TInt U32) (EVar 1) (ELit (TInt U32) 2))
+                                              (EBreak TUnit (EVar 0)) (ETup []))
+                                    (ESeq (EAssign 1 (EBin Add (TInt U32) (EVar 1) (ELit (TInt U32) 1)))
+                                          (EMatch (ECall 0 [ARef 0])
+                                             [(3%nat, ETup []); (4%nat, ETup [])]))))
+                      (EVar 2)) |} in
+  let p := [bump; main] in
+  wt_prog p = true
+  /\ eval_fn p 1 [VInt 5] 100 = Value (VInt 205)
+  /\ eval_fn p 1 [VInt 60] 100 = Panic [short "u8_add Overflow"].
+Proof. vm_compute. repeat split. Qed.
+
 (* the strings are the corelib's: the felts as they appear in RunResultValue::Panic *)
 Example C01_example_felts :
   short "u8_add Overflow" = 0x75385f616464204f766572666c6f77
@@ -69,3 +104,4 @@ Print Assumptions C01_panic_data_exact_div.
 Print Assumptions C01_div_rem_exact.
 Print Assumptions C01_fuel_monotone.
 Print Assumptions C01_ref_deterministic.
+Print Assumptions C01_ref_type_sound.
